@@ -9,6 +9,7 @@ import (
 	"strings"
 	"sync/atomic"
 	"testing"
+	"time"
 
 	sim "metacontroller/pkg/verifsim"
 )
@@ -200,7 +201,7 @@ func d12Run(t *testing.T, fin bool, f *d12Fault, ref *d12Ref) *d12Ref {
 			return nil
 		}
 		if w.q.Len() == 0 {
-			if w.q.ReleaseDelayed() == 0 {
+			if w.q.ReleaseDue(10*time.Second) == 0 {
 				converged = true
 			}
 			continue
